@@ -75,6 +75,7 @@ func runC15(c *Ctx, r *Report) {
 	// loops under EOL: reuse C08.R2's evaluation
 	{
 		sub := NewReport("C08", r.Tier, c)
+		sub.Sub = true
 		c.checkParserLoops(sub, pi)
 		for _, o := range sub.Obls {
 			if o.status == FAIL && !containsStr(o.Desc, "EOL") {
